@@ -468,4 +468,6 @@ def k_iri_join(desc, F, s1, s2, f, name):
 BODIES = {"k-iri-join": k_iri_join, "k-rdfxml-lang": k_rdfxml_lang, "k-ttl-roundtrip-long": k_ttl_roundtrip_long, "k-plain-num": k_plain_num, "k-nt-writer": k_nt_writer, "k-nt-quoteliteral": k_nt_quoteliteral, "k-ttl-roundtrip": k_ttl_roundtrip,
           "k-ttl-reader": k_ttl_reader, "k-nt-reader": k_nt_reader, "k-xml-text": k_xml_text}
 
-ESCAPES = ["", "\\n", "\\t", "\\\"", "\\'", "\\\\", "\\r", "\\b", "\\f", "\\u0041", "\\u00e9", "\\U0001F600", "\\u005C", "\\u0022"]
+ESCAPES = ["", "\\n", "\\t", "\\\"", "\\'", "\\\\", "\\r", "\\b", "\\f", "\\u0041", "\\u00e9", "\\U0001F600", "\\u005C", "\\u0022",
+           # an escape directly followed by hexadecimal digits (where a greedy or case-blind escape pattern reads too far)
+           "\\u0041cafe", "\\U0001F600ff", "\\u00e9BEEF0"]
